@@ -68,6 +68,11 @@ def call_builtin(ip, fn, args, kwargs, lineno):
         if len(vals) == 2:
             return SymRange(vals[0], vals[1])
         raise Unsupported("range with symbolic step")
+    if fn is vars:
+        (x,) = args
+        if isinstance(x, SRec):
+            return {k: v for k, v in x._f.items() if not k.startswith("__lru__")}      # the instance dict (ghost memo entries are not in it)
+        raise Unsupported("vars of %r" % (x,))
     if fn is zip:
         items = [ip.concrete_items(a) for a in args]
         if all(i is not None for i in items):
@@ -439,6 +444,15 @@ def call_np(ip, name, args, kwargs, lineno):
         if M.is_arr(a) or M.is_arr(b):
             return M.elementwise(lambda x, y: op(x, y), a, b, "int", lineno)
         return op(a, b)
+    if name == "clip" and len(args) == 3 and not kwargs:
+        # np.clip(a, lo, hi) = minimum(maximum(a, lo), hi)  (NumPy's definition, also when lo > hi); None = no bound on that side
+        a, lo, hi = args
+        r = a
+        if lo is not None:
+            r = M.elementwise(lambda x, y: Max(x, y), r, lo, "int", lineno) if (M.is_arr(r) or M.is_arr(lo)) else Max(r, lo)
+        if hi is not None:
+            r = M.elementwise(lambda x, y: Min(x, y), r, hi, "int", lineno) if (M.is_arr(r) or M.is_arr(hi)) else Min(r, hi)
+        return r
     if name == "where":
         if len(args) == 3:
             cnd, a, b = args
